@@ -179,6 +179,13 @@ theorem scaling_total_exact (a b : Str) :
     Scaling.scaling a b = scaling a b :=
   ⟨scaling_total a b, scalingGen_eq a b⟩
 
+/-- conversions compose and invert for ANY strings the code reports scalable (atoms of any spelling the
+recogniser lets through, compounds, …), not only for table atoms -/
+theorem scaling_compose_invert_general (a b c : Str) (hab : scalable a b = true) (hbc : scalable b c = true) :
+    (∃ x y z : Rat, scaling a b = .ok x ∧ scaling b c = .ok y ∧ scaling a c = .ok z ∧ x * y = z) ∧
+    (∃ x y : Rat, scaling a b = .ok x ∧ scaling b a = .ok y ∧ x * y = 1) :=
+  ⟨scaling_compose_general a b c hab hbc, scaling_invert_general a b hab⟩
+
 /-- a conversion factor is strictly positive -/
 theorem scaling_positive (a b : Str) (r : Rat) (h : scaling a b = .ok r) : 0 < r := scaling_pos a b r h
 
